@@ -124,7 +124,10 @@ func (iq *IQ) UnmarshalXML(d *xml.Decoder, start xml.StartElement) error {
 
 		switch tt := t.(type) {
 		case xml.StartElement:
-			if tt.Name.Local == "error" {
+			// The stanza error is the <error/> child in the namespace of the stanza itself
+			// (RFC 6120, 8.3.1); an element of another namespace that happens to be called
+			// error is a payload like any other.
+			if tt.Name.Local == "error" && tt.Name.Space == start.Name.Space {
 				var xmppError Err
 				err = d.DecodeElement(&xmppError, &tt)
 				if err != nil {
